@@ -1,6 +1,7 @@
 package rules
 
 import (
+	"go/types"
 	"fmt"
 	"regexp"
 	"strconv"
@@ -13,6 +14,7 @@ import (
 
 func c03LeafAgree(c *core.Ctx) {
 	const rule = "C03-leaf-agree"
+	endianHelpersRule(c, rule)
 	lx := core.NewLayout()
 	sx := core.NewSymx()
 	// Agglayer-side exit leaf
@@ -109,29 +111,40 @@ func c03LeafAgree(c *core.Ctx) {
 	}
 }
 
-// orderPreservingMap: the function appends exactly one element per input element, in index order.
+// orderPreservingMap: the slice the function returns holds exactly one element per input element, in index order
+// ([LIST]: append to an empty list, or index store into make(len(input)), inside a loop over the whole input).
 func orderPreservingMap(fn *ssa.Function, input string) (bool, string) {
 	sx := core.NewSymx()
-	appends := 0
-	okElem := true
-	core.Instrs(fn, func(i ssa.Instruction) {
-		call, ok := i.(*ssa.Call)
-		if !ok {
-			return
+	var list ssa.Value
+	var use ssa.Instruction
+	for _, r := range core.Returns(fn) {
+		if len(r.Results) == 0 {
+			continue
 		}
-		if b, ok := call.Call.Value.(*ssa.Builtin); ok && b.Name() == "append" {
-			appends++
+		if len(r.Results) == 2 && !isNilConst(r.Results[1]) {
+			continue
 		}
-	})
-	// range loop over the input with the implicit ascending index
-	hasRange := false
-	for _, b := range fn.Blocks {
-		if iff, ok := b.Instrs[len(b.Instrs)-1].(*ssa.If); ok {
-			if sx.Of(iff.Cond).String() == "((loop{const(-1)} + const(1)) < len("+input+"))" {
-				hasRange = true
-			}
+		if _, isSlice := r.Results[0].Type().Underlying().(*types.Slice); isSlice && !isNilConst(r.Results[0]) {
+			list = r.Results[0]
+			use = r
 		}
 	}
+	if list == nil {
+		return false, "no returned slice"
+	}
+	lb := core.AnalyseList(list)
+	if len(lb.Problems) > 0 || len(lb.Elems) != 1 {
+		return false, fmt.Sprintf("list construction: %v (%d element writes)", lb.Problems, len(lb.Elems))
+	}
+	e := lb.Elems[0]
+	okSize := false
+	if lb.Append {
+		n, isC := core.ConstInt(lb.Make.Len)
+		okSize = isC && n == 0
+	} else {
+		okSize = sx.Of(lb.Make.Len).String() == "len("+input+")" && e.Idx != nil && sx.Of(e.Idx).String() == "(loop{const(-1)} + const(1))"
+	}
+	full, why := core.FullRangeFor(e.At, sx, input, use)
 	// no reordering helpers
 	reorder := false
 	core.Instrs(fn, func(i ssa.Instruction) {
@@ -140,7 +153,7 @@ func orderPreservingMap(fn *ssa.Function, input string) (bool, string) {
 			reorder = true
 		}
 	})
-	return appends == 1 && hasRange && okElem && !reorder, fmt.Sprintf("appends=%d range-over-%s=%v reorder=%v", appends, input, hasRange, reorder)
+	return okSize && full && !reorder, fmt.Sprintf("one element per entry of %s, whole range, in order: size=%v range=%v %s reorder=%v", input, okSize, full, why, reorder)
 }
 
 func c03Order(c *core.Ctx) {
@@ -257,6 +270,7 @@ func c03NewLER(c *core.Ctx) {
 		als := allocsOfType(bc, "agglayer/types.Certificate")
 		if len(als) == 1 {
 			nh := "(*aggsender/flows.baseFlow).getNextHeightAndPreviousLER(f, lastSentCertificate)"
+			bindLivePhis(sx, bc, als[0])
 			checkFields(c, rule, "flows.(*baseFlow).BuildCertificate#certificate", als[0].Pos(), sx.Of(als[0]), map[string]string{
 				"Height":              nh + "#0",
 				"PrevLocalExitRoot":   nh + "#1",
